@@ -90,7 +90,7 @@ def make_mesh(rec):
     return m
 
 
-def lattice_mesh(kind, rng, size=None, side=None, shear=True, renumber=True):
+def lattice_mesh(kind, rng, size=None, side=None, shear=True, renumber=True, nonuniform=None):
     """Integer lattice mesh with cells of side 1, 2 or 4 (power-of-two determinants), optionally sheared
     (determinant preserved), vertices renumbered.  Returns the JSON mesh record."""
     side = side or int(rng.choice([1, 2, 2, 4]))
@@ -116,7 +116,7 @@ def lattice_mesh(kind, rng, size=None, side=None, shear=True, renumber=True):
     else:
         raise ValueError(kind)
     p = np.array(p, dtype=float)
-    if kind in ('tri', 'quad', 'tet', 'hex') and rng.integers(0, 2):
+    if kind in ('tri', 'quad', 'tet', 'hex') and (rng.integers(0, 2) if nonuniform is None else nonuniform):
         # non-uniform lattice: spacings 1, 2 or 4 per axis (cell determinants stay powers of two, cells differ in size)
         for ax in range(p.shape[0]):
             levels = np.unique(p[ax])
